@@ -5,6 +5,7 @@ CONSTANTS
   Wide = FALSE
   ScratchVals = {0}
   ArgCounts = {0}
+  SingleCounts = {}
   RotStep = 1
   Emit = FALSE
   Strict = TRUE
